@@ -8,6 +8,18 @@ ALL_IDS = [f"C{i:02d}" for i in range(1, 31)]
 
 # id -> dict(category, text, note, technique, design_ref)
 CHECKS = {
+    "C01": dict(
+        category="exploration",
+        technique="BaseException net around the real run.load_model / main.execute / CLI (both forms) under 1-3 stacked text+AST mutations of the fixture models and ~8 400 targeted cases; crash mechanism = class@innermost repo function|contract text",
+        text="3-6k (quick) to ~130k (thorough) texts; oracle: (symbol table, None) xor (None, non-empty report), rc 0/1, rc 1 with non-empty stderr for rejected models, no traceback on the CLI.",
+        note="Finite sampling with a long tail of rare crash sites; generator crashes on accepted models are counted for C02; 14 front-end crash sites that need new verification rules are listed in known_findings.json.",
+    ),
+    "C04": dict(
+        category="exploration",
+        technique="wrapper on LinenoColumner.error_message (every nested located error) + independent offset->(line, column) conversion + positions derived from ast attributes only",
+        text="1.5-5k (quick) / 70-80k (thorough) located errors; 11 layout transformations put constructs on first/later lines, indented, after multi-line strings/non-ASCII/comments, inside multi-line statements; each recorded prefix is re-found in stderr.",
+        note="Decorated definitions may be located at their first '@', multi-line nodes at column 1; CR/CRLF are invisible to the front end (universal newlines).",
+    ),
     "C02": dict(
         category="exploration",
         technique="BaseException net around the real main.execute / smoke.execute for accepted models x 8 targets + smoke; crash mechanisms keyed by exception class, innermost repo function and normalised contract text",
@@ -68,6 +80,12 @@ CHECKS = {
         text="Every constant, constant set (incl. superset_of chains, sets of enum literals) and enumeration of generated models is compared with the value obtained by executing the meta-model source with shim markers; <enum>_from_str is probed on literal values and neighbouring texts.",
         note="constant_bytearray cannot be written in the accepted subset (ast.Constant never holds a bytearray) and is therefore not exercised.",
     ),
+    "C15": dict(
+        category="exploration",
+        technique="differential runtime oracle: real infer_for_schema.infer_constraints_by_class on the real symbol table vs Python's own evaluation of each recognised invariant sub-expression on shadow values of every length / every literal; second monitor on tightening_steps; error-justification monitor",
+        text="Hundreds (quick) to ~10 000 (thorough) generated bounds-mode models plus 17 pinned ones: chains, diamonds, constrained-primitive chains, all comparison operators in both operand orders with guards, pattern calls, constant-set membership with superset_of, ~25 unrecognised shapes; every slot's inferred range, pattern set and literal set must admit exactly what the recognised invariants admit; unsatisfiable combinations must be returned as errors; any raise is a violation.",
+        note="Recognised shapes are those documented in infer_for_schema docstrings; pattern lists compared as sets of strings; error wording not judged.",
+    ),
     "C16": dict(
         category="exploration",
         technique="seeded grammar-aware regex fuzzer against the real retree.parse/render; differential oracle Python re (original vs rendering on strings from both languages, one-edit neighbours, all range boundaries) plus parse(render) dump equality and error-position check",
@@ -80,11 +98,29 @@ CHECKS = {
         text="About 0.8-2.4k rewrites x 60 strings (quick), 34k x 120 (thorough); 17 edge code points x 3 shapes enumerated systematically; delta-minimised naming of non-limitation disagreements.",
         note="Well-formed subject strings only; '.', complemented sets and lone surrogates on astral strings are a documented limitation listed in known_findings.json; node leg excludes strings with line terminators.",
     ),
+    "C18": dict(
+        category="exploration",
+        technique="three-way differential execution: intermediate.revm.translate programs run by a reference Pike VM written from the instruction docstrings, and the real generated pattern.cpp/revm.cpp compiled with ASan+UBSan in UTF-32 and UTF-16 variants, against Python re.fullmatch; non-termination judged by a function-entry step counter",
+        text="Anchored patterns (fixed list, 62 shipped patterns incl. v3, grammar generator with nesting/quantifiers/astral sets) x 40-100 strings each: ~12k (quick) / ~125k (thorough) evaluations by the reference VM and ~11k / ~110k by the generated C++ matcher; programs checked structurally (targets, final match, epsilon-cycles).",
+        note="Finite sampling; strings <= 14 chars without line breaks; UTF-16 comparison only where a UTF-16 engine can agree with code points; C++ leg needs g++ (else decided by the reference VM alone, stated in evidence).",
+    ),
+    "C19": dict(
+        category="exploration",
+        technique="differential read-back: real literal helpers of all six targets on hostile values; emitted literals compiled/evaluated by Python, g++ (ASan/UBSan), javac/java, node; spec-derived decoders for C#/Go",
+        text="Every code point 0..0x17f alone, every special character x hex/other neighbours, escape look-alikes and random strings and bytes through every helper/mode incl. f-string/template composition; ~60-110k read-backs quick, ~1.4M thorough.",
+        note="C#/Go judged by spec decoders (no toolchain); narrow C++ literal judged on ASCII only (its precondition); needs_escaping judged only in the False direction.",
+    ),
     "C22": dict(
         category="exploration",
         technique="differential repeated real CLI subprocess runs vs a reference under varied PYTHONHASHSEED, output-directory history, snippet creation order, shuffled directory listings (sitecustomize shim) and cold/warm model cache",
         text="Quick about 20 (model, target) groups x 4 variants, thorough v3 x 8 targets plus 64 small and about 66 corpus groups; exit status, stdout and stderr modulo paths and every output byte are compared with the reference run.",
         note="Addresses masked only inside tracebacks; foreign files may remain in a pre-populated output directory; heavy machine load gives inconclusive, never held.",
+    ),
+    "C23": dict(
+        category="exploration",
+        technique="audit-hook event log (open/rename/remove/mkdir via sitecustomize) of real CLI subprocess histories + output/stdout/stderr differential between plain, cold-cache and warm-cache runs + pickle round-trip equivalence of the symbol table",
+        text="Histories [plain], [plain, plain], [cached cold, cached warm, plain], [cached, edit, cached], [A, B, A], failing models, several targets; without the flag no path under the cache directory may be touched and all writes lie under --output_dir; with it outputs equal the plain run; an unpickled symbol table must dump equal and drive all 8 generators to byte-identical output.",
+        note="Interpreter-internal writes excluded via PYTHONDONTWRITEBYTECODE; each CLI start costs seconds, so quick runs few histories.",
     ),
     "C25": dict(
         category="exploration",
